@@ -10,6 +10,14 @@
 #include "nfl/prng/crypto_stream_salsa20.h"
 #include "nfl/prng/randombytes.h"
 
+#ifdef NFLLIB_VERIF
+// verification hook: scheduling points around the accesses to the generator's shared state
+extern "C" void nfl_verif_point(int point, unsigned long long value);
+#define NFL_VERIF_POINT(p, v) nfl_verif_point((p), (v))
+#else
+#define NFL_VERIF_POINT(p, v)
+#endif
+
 namespace nfl {
 
 static size_t constexpr crypto_stream_salsa20_KEYBYTES = 32;
@@ -19,6 +27,7 @@ static unsigned char key[crypto_stream_salsa20_KEYBYTES];
 static std::atomic<unsigned long long> nonce_counter(0);
 
 static bool seed_key() {
+  NFL_VERIF_POINT(1, 0);
   randombytes(key, crypto_stream_salsa20_KEYBYTES);
   return true;
 }
@@ -26,13 +35,16 @@ static bool seed_key() {
 void fastrandombytes(unsigned char *r, unsigned long long rlen) {
   unsigned char nonce[crypto_stream_salsa20_NONCEBYTES];
   int i;
+  NFL_VERIF_POINT(0, 0);
   // The key is drawn exactly once, even when several threads make the first call
   static const bool seeded = seed_key();
   (void)seeded;
 
+  NFL_VERIF_POINT(2, 0);
   // Every request takes its own value of the 64-bit counter (nonce)
   unsigned long long n = nonce_counter.fetch_add(1);
   for (i = 0; i < crypto_stream_salsa20_NONCEBYTES; i++) nonce[i] = (n >> 8 * i) & 0xff;
+  NFL_VERIF_POINT(3, n);
 
   nfl_crypto_stream_salsa20_amd64_xmm6(r, rlen, nonce, key);
 }
